@@ -27,11 +27,19 @@ Proof.
         rewrite <- Hss. field; auto.
 Qed.
 
-(** np.maximum(0.0, 1 - c*c) is 1 - c*c = a*a + b*b for a unit vector *)
-Lemma clamp_unit (a b c : R) : a * a + b * b + c * c = 1 ->
-  fmax 0 (1 - c * c) = a * a + b * b.
+(** _circle_extent(axis)[i] = sqrt of the sum of the squares of the OTHER two components of the
+    axis (column 2 of the pose); for a rotation this is sqrt(x_i^2 + y_i^2) of row i, because the
+    column and the row are both unit vectors (/repo 53f58ad; the earlier sqrt(max(0, 1 - a_i^2))
+    is the same real number but cancels in binary64 for an almost aligned axis: finding F27) *)
+Lemma circle_extent_rotation (m : M3 R) i : is_rotation m -> (i < 3)%nat ->
+  nthv (circle_extent (col m 2)) i
+  = R_sqrt.sqrt (vx (row m i) * vx (row m i) + vy (row m i) * vy (row m i)).
 Proof.
-  intros H. unfold fmax. rops. case_ltb 0 (1 - c * c) Hc; nra.
+  intros HR Hi. pose proof (rotation_col_unit m 2 HR) as Hc.
+  destruct (rotation_row_unit m HR) as (R0 & R1 & R2).
+  destruct m as [[m00 m01 m02] [m10 m11 m12] [m20 m21 m22]].
+  unfold circle_extent, vsqrt, vmap, vmul, col, nthv in *. vunfold. cbn [vx vy vz r0 r1 r2] in *. rops.
+  destruct i as [|[|[|i]]]; [| | |lia]; cbn [row r0 r1 r2 vx vy vz]; f_equal; lra.
 Qed.
 
 Lemma Rabs_mul_sign (c z : R) : 0 <= z -> exists s, (s = z \/ s = - z) /\ c * s = Rabs c * z.
@@ -48,13 +56,12 @@ Proof.
   split; [nra|]. rewrite Rabs_Ropp. auto.
 Qed.
 
-Lemma cylinder_K_extent (d : V3R) (r l : R) : dot d d = 1 -> 0 <= r -> 0 <= l ->
-  let e := / 2 * l * Rabs (vz d) + r * R_sqrt.sqrt (fmax 0 (1 - vz d * vz d)) in
+(** the support value of the canonical cylinder along ANY direction d *)
+Lemma cylinder_K_extent (d : V3R) (r l : R) : 0 <= r -> 0 <= l ->
+  let e := / 2 * l * Rabs (vz d) + r * R_sqrt.sqrt (vx d * vx d + vy d * vy d) in
   (forall k, cylinder_K r l k -> dot d k <= e) /\ (exists k, cylinder_K r l k /\ dot d k = e).
 Proof.
-  intros Hd Hr Hl. destruct d as [a b c]. cbn [vz].
-  assert (Hu : a * a + b * b + c * c = 1) by (vunfold; cbn [vx vy vz] in Hd; lra).
-  rewrite (clamp_unit a b c Hu). cbv zeta.
+  intros Hr Hl. destruct d as [a b c]. cbn [vx vy vz]. cbv zeta.
   destruct (disk2_extent a b r Hr) as [Hub (x0 & y0 & Hin & Heq)].
   split.
   - intros [x y z] [Hxy Hz]. cbn [vx vy vz] in *. vunfold. cbn [vx vy vz].
@@ -72,12 +79,13 @@ Proof.
   intros T r l HR Hr Hl. unfold cylinder_aabb, cylinder_set. cbn [fst snd].
   apply image_aabb_sym; [apply cylinder_K_sym|].
   intros i Hi.
-  replace (nthv (vadd (vscale (half * l) (vabs (col (rot T) 2)))
-                      (vscale r (vsqrt (vclamp0 (vone_minus (vmul (col (rot T) 2) (col (rot T) 2))))))) i)
+  replace (nthv (vadd (vscale (half * l) (vabs (col (rot T) 2))) (vscale r (circle_extent (col (rot T) 2)))) i)
     with (/ 2 * l * Rabs (vz (row (rot T) i))
-          + r * R_sqrt.sqrt (fmax 0 (1 - vz (row (rot T) i) * vz (row (rot T) i)))).
-  - apply cylinder_K_extent; auto. apply row_unit; auto.
-  - rewrite half_R. rewrite <- nthv_col2. destruct i as [|[|i]]; reflexivity.
+          + r * R_sqrt.sqrt (vx (row (rot T) i) * vx (row (rot T) i) + vy (row (rot T) i) * vy (row (rot T) i))).
+  - apply cylinder_K_extent; auto.
+  - rewrite <- circle_extent_rotation by auto. rewrite half_R. rewrite <- nthv_col2.
+    generalize (circle_extent (col (rot T) 2)) (col (rot T) 2). intros e a.
+    destruct e, a. destruct i as [|[|i]]; reflexivity.
 Qed.
 
 (** ** disk *)
@@ -95,13 +103,11 @@ Proof.
   split; [lra|nra].
 Qed.
 
-Lemma disk_K_extent (d : V3R) (r : R) : dot d d = 1 -> 0 <= r ->
-  let e := r * R_sqrt.sqrt (fmax 0 (1 - vz d * vz d)) in
+Lemma disk_K_extent (d : V3R) (r : R) : 0 <= r ->
+  let e := r * R_sqrt.sqrt (vx d * vx d + vy d * vy d) in
   (forall k, disk_K r k -> dot d k <= e) /\ (exists k, disk_K r k /\ dot d k = e).
 Proof.
-  intros Hd Hr. destruct d as [a b c]. cbn [vz].
-  assert (Hu : a * a + b * b + c * c = 1) by (vunfold; cbn [vx vy vz] in Hd; lra).
-  rewrite (clamp_unit a b c Hu). cbv zeta.
+  intros Hr. destruct d as [a b c]. cbn [vx vy]. cbv zeta.
   destruct (disk2_extent a b r Hr) as [Hub (x0 & y0 & Hin & Heq)].
   split.
   - intros [x y z] [Hz Hxy]. cbn [vx vy vz] in *. subst z. vunfold. cbn [vx vy vz].
@@ -123,10 +129,13 @@ Proof.
   change c with (trans (P (of_cols x y n) c)) at 2 3.
   apply image_aabb_sym; [apply disk_K_sym|].
   intros i Hi. cbn [rot].
-  replace (nthv (vscale r (vsqrt (vclamp0 (vone_minus (vmul n n))))) i)
-    with (r * R_sqrt.sqrt (fmax 0 (1 - vz (row (of_cols x y n) i) * vz (row (of_cols x y n) i)))).
-  - apply disk_K_extent; auto. apply row_unit; auto.
-  - destruct x, y, n. destruct i as [|[|i]]; reflexivity.
+  replace (nthv (vscale r (circle_extent n)) i)
+    with (r * R_sqrt.sqrt (vx (row (of_cols x y n) i) * vx (row (of_cols x y n) i)
+                           + vy (row (of_cols x y n) i) * vy (row (of_cols x y n) i))).
+  - apply disk_K_extent; auto.
+  - rewrite <- (circle_extent_rotation (of_cols x y n)) by auto.
+    replace (col (of_cols x y n) 2) with n by (destruct x, y, n; reflexivity).
+    generalize (circle_extent n). intros e. destruct e. destruct i as [|[|i]]; reflexivity.
 Qed.
 
 (** ** ellipse (the two axes are arbitrary vectors) *)
@@ -233,17 +242,12 @@ Proof.
     nthv (snd (cone_aabb T r h)) i
     = nthv (trans T) i + fmax (r * R_sqrt.sqrt (vx (row (rot T) i) * vx (row (rot T) i) + vy (row (rot T) i) * vy (row (rot T) i)))
                               (h * vz (row (rot T) i))).
-  { intros i Hi. pose proof (row_unit (rot T) i HR) as Hu.
+  { intros i Hi. rewrite <- !circle_extent_rotation by auto.
     rewrite <- fmin_shift, <- fmax_shift. unfold cone_aabb. cbn [fst snd].
-    destruct T as [[[m00 m01 m02] [m10 m11 m12] [m20 m21 m22]] [tx ty tz]].
-    destruct i as [|[|[|i]]]; [| | |lia]; cbn [row r0 r1 r2 rot] in Hu; vunfold; cbn [vx vy vz] in Hu;
-      cbn -[fmin fmax]; rops.
-    - replace ((tx + h * m02 - tx) * (tx + h * m02 - tx) / (h * h)) with (m02 * m02) by (field; lra).
-      rewrite (clamp_unit m00 m01 m02) by lra. split; f_equal; ring.
-    - replace ((ty + h * m12 - ty) * (ty + h * m12 - ty) / (h * h)) with (m12 * m12) by (field; lra).
-      rewrite (clamp_unit m10 m11 m12) by lra. split; f_equal; ring.
-    - replace ((tz + h * m22 - tz) * (tz + h * m22 - tz) / (h * h)) with (m22 * m22) by (field; lra).
-      rewrite (clamp_unit m20 m21 m22) by lra. split; f_equal; ring. }
+    rewrite nthv_vmin, nthv_vmax, !nthv_vadd, !nthv_vsub, <- nthv_col2.
+    generalize (circle_extent (col (rot T) 2)) (col (rot T) 2) (trans T). intros e a t.
+    destruct e as [e0 e1 e2], a as [a0 a1 a2], t as [t0 t1 t2].
+    destruct i as [|[|[|i]]]; [| | |lia]; vunfold; cbn [nthv vx vy vz]; split; f_equal; ring. }
   split.
   - intros x (k & Hk & ->) i Hi. destruct (Hb i Hi) as [-> ->].
     rewrite nthv_transform.
